@@ -1243,6 +1243,9 @@ SMALL_TREES = {
     # while it waits, after it finished)
     'child-cancelled-at-any-point': (
         (), (('s', 0), ('y',), ('a', 0)), (('s', 1), ('c', 0))),
+    # ... and the child is preempted BEFORE it creates its future
+    'child-preempted-before-submit': (
+        (), (('y',), ('s', 0), ('a', 0)), (('s', 1), ('c', 0))),
     # map over argument lists of different lengths
     'map-zip-await': ((), (('m', (0, 0, 0), ('z', 3, 2)), ('a', 0))),
     'submit-await': ((), (('s', 0), ('a', 0))),
@@ -1272,6 +1275,7 @@ def small_scenarios(which='all'):
         keep = ('submit-await/detached1/result', 'submit-cancel/detached1/result',
                 'submit-await/detached1/cancel',
                 'child-cancelled-at-any-point/detached1/result',
+                'child-preempted-before-submit/detached1/result',
                 'map-zip-await/attached1/result')
         out = [x for x in out if x[0] in keep]
     return out
